@@ -206,10 +206,26 @@ def _sets_kw(c, ic, sir):
         if c.get('rho_default'):
             return {}                    # documented default: rho = 1/N
         return {'rho': c['rho']}
-    kw = {'initial_infecteds': list(ic.I0nodes)}
+    kw = {'initial_infecteds': _as_container(ic.I0nodes, c.get('I0form', 'list'))}
     if sir and ic.R0nodes:
-        kw['initial_recovereds'] = list(ic.R0nodes)
+        kw['initial_recovereds'] = _as_container(ic.R0nodes, c.get('R0form', 'list'))
     return kw
+
+
+def _as_container(nodes, form):
+    """the documented 'iterable of nodes' in several concrete shapes"""
+    nodes = list(nodes)
+    if form == 'tuple':
+        return tuple(nodes)
+    if form == 'set':
+        return set(nodes)
+    if form == 'frozenset':
+        return frozenset(nodes)
+    if form == 'dictkeys':
+        return dict.fromkeys(nodes).keys()
+    if form == 'array' and all(isinstance(u, int) for u in nodes):
+        return np.array(nodes)
+    return nodes
 
 
 def _wrapper(name, sir, full=True):
@@ -463,6 +479,8 @@ def analytic_case(draw, names=None, nmax=12, need_edge=True, modes=('rho', 'sets
         sir = e.model == 'SIR'
         I0, R0 = draw(gen.initial_sets(gc['nodes'], allow_R=sir))
         case['I0'], case['R0'] = I0, R0
+        case['I0form'] = draw(st.sampled_from(['list', 'list', 'tuple', 'set', 'frozenset', 'dictkeys', 'array']))
+        case['R0form'] = draw(st.sampled_from(['list', 'list', 'tuple', 'set', 'frozenset']))
     if mode == 'rho' and e.level == 'wrapper' and '_from_graph' in name and not e.discrete and 'pref_mix' not in name and draw(st.integers(0, 4)) == 0:
         case['rho_default'] = True       # rho omitted: the documented default 1/N
         case['rho'] = 1.0 / len(gc['nodes'])
